@@ -568,3 +568,5 @@ func autoPatterns(quants []*qhyp) {
 		walk(qh.body, false)
 	}
 }
+
+func ginstRounds() int { return envInt("GOVC_GINST_ROUNDS", 3) }
